@@ -277,6 +277,10 @@ class Gen:
         rng = self.rng
         r = rng.random()
         real = [m.handle for m in self.models]
+        big = [m.handle for m in self.models if m.value is not None and len(m.value) > 251]
+        if r < 0.05 and big and self.tuned:
+            # a value longer than 251 bytes first: nothing but the last value may be truncated
+            return [rng.choice(big), rng.choice(self.tuned).handle, rng.choice(real)], None
         if r < 0.25 and len(self.tuned) >= 3:
             # values sized against the case's ATT_MTU, in a random order
             return [m.handle for m in rng.sample(self.tuned, rng.choice([2, 2, 3]))], None
